@@ -110,10 +110,15 @@ def check_class(res, index, cls):
         if e.type != "cmp" or e.func is None or not e.func.module.name.startswith("coxeter.shapes"):
             continue
         if not (("batch" in e.left.tags) or ("batch" in e.right.tags)):
-            continue
+            cl0 = classify_cmp(e)
+            if not (cl0 and cl0[0] == "inhomogeneous" and e.form == "compare"):
+                continue
         ncmp += 1
         cl = classify_cmp(e)
-        if cl and cl[0] == "in-band":
+        if cl and cl[0] == "inhomogeneous":
+            res.bad("IN-3", f"{label}:inhomogeneous:{cl[1]}:{cl[2]}", e.where(), f"{label}: membership decided by comparing a quantity of length degree {cl[1]} "
+                    f"with one of degree {cl[2]} (`{e.src()[:50]}`): the answer changes when shape and points are scaled together")
+        elif cl and cl[0] == "in-band":
             res.bad("IN-3", f"{label}:band:k={cl[1]}:c={cl[2]}", e.where(), f"{label}: membership decided against the absolute constant {cl[2]} "
                     f"for a quantity of degree {cl[1]} (`{e.src()[:50]}`)")
     # ---------------------------------------------------------------- IN-4 norm-based for curved solids
